@@ -343,7 +343,7 @@ class DefaultPredictionStrategy(object):
 
         # see https://github.com/cornellius-gp/gpytorch/pull/2317#discussion_r1157994719
         mean_cache = self.mean_cache
-        if len(mean_cache.shape) == 4:
+        if len(mean_cache.shape) == 4 and mean_cache.dim() - 1 > test_train_covar.dim() - 2:
             mean_cache = mean_cache.squeeze(1)
 
         # Handle NaNs
